@@ -18,10 +18,11 @@ Classify = Callable[[Func, ast.Call, str], Optional[str]]
 
 
 class Events:
-    def __init__(self, ctx, classify: Classify, depth: int = 3):
+    def __init__(self, ctx, classify: Classify, depth: int = 3, extra: Optional[Callable[[Func, Node], List[str]]] = None):
         self.ctx = ctx
         self.classify = classify
         self.depth = depth
+        self.extra = extra  # events carried by a node itself (e.g. the exit branch of a "write until done" loop)
         self._summ: Dict[str, List[str]] = {}
         self._active: set = set()
 
@@ -30,7 +31,7 @@ class Events:
         calls = node_calls(n)
         # evaluation order approximated by end position (inner calls finish first)
         calls.sort(key=lambda c: (getattr(c, "end_lineno", 0), getattr(c, "end_col_offset", 0)))
-        out: List[str] = []
+        out: List[str] = list(self.extra(fn, n)) if self.extra is not None else []
         for c in calls:
             nm = self.ctx.prog.callee_name(fn, c)
             ev = self.classify(fn, c, nm)
